@@ -3,7 +3,7 @@ import ast
 
 from ..core import AnalysisError, dotted, FuncTypes, walk_no_nested
 from ..cfg import CFG, cond_guards
-from ..util import calls_in, local_defs, depends_on, names_in, const_val, NOVAL
+from ..util import calls_in, local_defs, depends_on, names_in, const_val, NOVAL, truth_under
 from ..taint import Taint
 from .. import facts
 
@@ -52,6 +52,7 @@ def run(ctx):
     ctx.rule('R20.5', 'wiring: diff endpoint returns the base it diffed with diff_notebooks(base, remote); merge endpoint returns '
              'decide_notebook_merge(base, local, remote) under mergetool strategy; every route gets the base_url prefix', floor=4)
     ctx.rule('R20.6', 'errors map to error statuses: broad handlers re-raise as HTTPError>=400; narrow handlers only from a frozen table', floor=5)
+    ctx.rule('R20.8', 'file-like notebook arguments fixed at start-up (git blob streams of the diff tool) are rewound before each read, so later requests are answered as the first', floor=1)
     ctx.rule('R20.7', 'a malformed store request changes nothing on disk: the request is parsed and converted before the output file is opened; only the write happens while it is open', floor=1)
 
     mods = (SRV,) if ctx.tier == 'quick' else (SRV, 'nbdime.webapp.nb_server_extension')
@@ -149,6 +150,53 @@ def run(ctx):
                  'a malformed body / missing key fails before the output file is opened (truncated)' if ok else
                  ('request data is parsed after the output file has been opened for writing: a malformed request truncates it' if late or not pre else
                   'work other than the write happens while the output file is open: %s' % [ast.unparse(c)[:40] for c in inner_bad]), st)
+
+    # ---------------------------------------------------------------- R20.8 start-up streams are rewound before every read
+    def is_startup(node, fn_):
+        return isinstance(node, ast.Attribute) and node.attr == 'params' and dotted(node.value) == 'self'
+    sreach = set()
+    for cid, c in repo.classes.items():
+        if cid.split(':')[0] in mods and cg.is_handler_class(cid):
+            for stn in c.body:
+                if isinstance(stn, FuncTypes):
+                    sreach.add(repo.fid_of(stn))
+    st_taint = Taint(ctx, is_startup, sreach)
+    n_reads = 0
+    for fid_ in sorted(sreach):
+        fn_ = repo.functions[fid_]
+        g_ = None
+        for c in calls_in(fn_, nested=False):
+            dn = dotted(c.func) or ''
+            target = None
+            if dn in ('nbformat.read',) and c.args:
+                target = c.args[0]
+            elif isinstance(c.func, ast.Attribute) and c.func.attr in ('read', 'readlines', 'readline') and isinstance(c.func.value, ast.Name):
+                target = c.func.value
+            if target is None or not isinstance(target, ast.Name):
+                continue
+            if not st_taint.why(fn_, target):
+                continue
+            g_ = g_ or CFG(fn_)
+            stc = repo.stmt_of(c)
+            guards = cond_guards(g_, stc)
+            # a str argument is a file name: nbformat opens it afresh
+            is_str = any(truth_under(t, pol, lambda e: isinstance(e, ast.Call) and dotted(e.func) == 'isinstance' and len(e.args) == 2 and
+                                     dotted(e.args[0]) == target.id and dotted(e.args[1]) == 'str') is True for t, pol in guards)
+            maybe_stream = any(truth_under(t, pol, lambda e: isinstance(e, ast.Call) and dotted(e.func) == 'isinstance' and len(e.args) == 2 and
+                                           dotted(e.args[0]) == target.id and dotted(e.args[1]) == 'str') is False for t, pol in guards) or \
+                any(isinstance(x, ast.Call) and dotted(x.func) == 'hasattr' and x.args and dotted(x.args[0]) == target.id
+                    for t, pol in guards for x in ast.walk(t))
+            if is_str or not maybe_stream:
+                continue
+            n_reads += 1
+            seeks = [s2 for s2 in g_.stmts() if isinstance(s2, ast.Expr) and isinstance(s2.value, ast.Call) and isinstance(s2.value.func, ast.Attribute)
+                     and s2.value.func.attr == 'seek' and dotted(s2.value.func.value) == target.id and s2.value.args and const_val(s2.value.args[0]) == 0]
+            ok = any(g_.dominated_by(stc, [s2]) for s2 in seeks)
+            ctx.inst('R20.8', fid_, repo.norm(c), ok,
+                     'the stream handed over at start-up is rewound (seek(0)) before it is read for this request' if ok else
+                     'a file-like object fixed at start-up is read without rewinding: the first request consumes it, every later identical request fails or reads nothing', c)
+    if n_reads == 0:
+        raise AnalysisError('no read of a start-up stream found in the handlers (anchor moved)')
 
     # ---------------------------------------------------------------- R20.3
     stops = []
